@@ -1196,7 +1196,8 @@ func c01GroupArg(r *core.Run, rule string, a *svcAnchors, root []*ssa.Function) 
 			good := ok && c.Common().StaticCallee() != nil && isGroupToString(c.Common().StaticCallee())
 			if good {
 				gf, ok := core.LoadedField(c.Common().Args[0])
-				good = ok && gf.Struct == "regHandler" && gf.Name == "group"
+				// the registered handler's member of the template type, whatever it is called
+				good = ok && gf.Struct == "regHandler" && len(c.Common().StaticCallee().Params) > 0 && types.Identical(c.Common().Args[0].Type(), c.Common().StaticCallee().Params[0].Type())
 			}
 			// the name handed to toString is what an unset group defaults to: it must be the looked-up
 			// resource name itself (the lookup's string parameter), not a remainder of it
